@@ -1,7 +1,9 @@
 import NetqasmVerif.Driver.Codec
+import NetqasmVerif.Driver.QubitMgr
 open Lean NQ.Drv
 
-def handlers : List (String → Json → Option Json) := [handleCodec]
+def handlers : List (String → Json → Option Json) := [handleCodec,
+  handleQubitMgr]
 
 def dispatch (j : Json) : Json :=
   match (jField? j "op").bind jStr? with
